@@ -280,7 +280,7 @@ func genC09Script(t *rapid.T, c *c09Case) {
 		if rapid.IntRange(0, 2).Draw(t, "kind") == 0 {
 			s.Kind = "cycle"
 			s.Reuse = rapid.Bool().Draw(t, "reuse")
-			s.GapS = rapid.SampledFrom([]int{0, 0, 45}).Draw(t, "gap")
+			s.GapS = rapid.SampledFrom([]int{0, 0, 45, 8 * 86400}).Draw(t, "gap")
 			np := rapid.IntRange(1, 3).Draw(t, "nplans")
 			for j := 0; j < np; j++ {
 				p := c09Plan{}
@@ -1311,6 +1311,12 @@ func TestVerifC09_Scenarios(t *testing.T) {
 			{Kind: "cycle", Plan: []c09Plan{{FailInputDeletes: true}}},
 			{Kind: "cycle", Reuse: true, Late: true, ParentFailDeletes: true, Plan: []c09Plan{{FailInputDeletes: true}}},
 			{Kind: "cycle", Reuse: true, Late: true}}},
+		// the node stays down (or recovery keeps failing) for more than
+		// ManifestMaxAge: the first cycle that runs again is 8 days after the
+		// killed job wrote its manifest and must still settle it
+		{"kill-then-recovery-after-8-days", "hourly", 2, []c09Step{
+			{Kind: "cycle", Plan: []c09Plan{{Sym: "first-input-delete"}}},
+			{Kind: "cycle", GapS: 8 * 86400}}},
 		// same, the second cycle follows a kill instead of a delete fault
 		{"kill-then-reused-manager", "hourly", 2, []c09Step{
 			{Kind: "cycle", Plan: []c09Plan{{Sym: "first-input-delete"}}},
